@@ -27,7 +27,23 @@
             the atoms of a subset lie beyond the face f, the others do not (CutCases) - for
             every face +-a, +-b, +-c of elongated boxes whose long axis is a, b or c.
    "xform"  <<P, kind, arg>> translate / rotate / rotate_centered / rotate_about_axis /
-            align_vectors on a point set. *)
+            align_vectors on a point set.
+   "shapes" <<fn, forms, wi, ba>> fn = displacement / distance / angle / dihedral called with
+            operands of EVERY combination of dimensionality and kind: forms[j] = <<rank, kind>>
+            is the form of the j-th argument - rank 1 (3,), 2 (n,3), 3 (m,n,3); kind "nd"
+            (ndarray) or "obj" (Atom / AtomArray / AtomArrayStack) - taken from the operand
+            world ShapeWorlds[wi] (m models x n atoms per argument position); ba the box
+            argument (none / one box / per-model boxes).  With a box every position is given
+            to the code wrapped by a lattice vector.  fn = centroid: one operand of rank 2 / 3.
+            claims: code-shaped (subtraction order chosen by dimensionality) = textbook for
+            every entry of the broadcast result; wrapping changes nothing; reversing the
+            argument order negates the displacement and keeps distance, angle, dihedral.
+   "index"  <<fn, form, wi, bm, ba, perm>> index_fn(atoms, rows, periodic, box) on the world
+            flattened to one coordinate array (rank 2 / 3, ndarray / AtomArray / stack), the
+            argument positions drawn from the world's operands in the order perm; bm: how the
+            box reaches the code ("param", "own" = box attribute of atoms, "over" = explicit
+            box given although atoms has another one of its own).
+            claims: index-based = coordinate-based on the gathered operands. *)
 EXTENDS GeomOps
 
 CONSTANT Tier
@@ -155,6 +171,68 @@ XformCases(PS) ==
   \cup {<<"xform", <<P, "axis", <<t, s>>>>>> : P \in PS, t \in AxisTurns, s \in {<<0, 0, 0>>, <<1, -1, 2>>}}
   \cup {<<"xform", <<P, "align", <<u, v, op, tp>>>>>> : P \in PS, u \in AxisDirs, v \in AxisDirs, op \in {<<0, 0, 0>>, <<1, 1, -2>>}, tp \in {<<0, 0, 0>>, <<3, 0, 1>>}}
 
+(* ------------------------------------------------------------------ operand shapes *)
+(* operand worlds: T[j][mi][ai] = the true position of atom ai in model mi of the operand
+   that is given at argument position j.  Chosen such that (ASSUME below, decided by TLC)
+   for every combination of ranks every value is defined, no angle is a right angle (a
+   negated displacement would not show), and the entries of a result are pairwise different
+   (a wrongly broadcast operand shows).  Two worlds with different (m, n). *)
+WorldA == <<<<<<<<2, 0, 1>>, <<3, 0, 1>>, <<2, 2, 0>>>>, <<<<0, 3, 0>>, <<0, 3, 2>>, <<3, 3, 0>>>>>>,
+            <<<<<<1, 0, 3>>, <<1, 3, 1>>, <<1, 1, 3>>>>, <<<<0, 0, 1>>, <<2, 0, 0>>, <<1, 2, 3>>>>>>,
+            <<<<<<3, 2, 1>>, <<1, 2, 2>>, <<0, 2, 0>>>>, <<<<3, 0, 0>>, <<3, 0, 2>>, <<0, 1, 0>>>>>>,
+            <<<<<<2, 3, 3>>, <<0, 3, 0>>, <<1, 2, 2>>>>, <<<<3, 3, 1>>, <<1, 3, 0>>, <<0, 0, 3>>>>>>>>   \* m = 2, n = 3
+WorldB == <<<<<<<<0, 0, 0>>, <<2, 1, 2>>>>, <<<<2, 2, 3>>, <<0, 3, 2>>>>, <<<<0, 0, 3>>, <<2, 2, 0>>>>>>,
+            <<<<<<3, 0, 1>>, <<3, 1, 1>>>>, <<<<0, 0, 1>>, <<1, 2, 1>>>>, <<<<2, 2, 0>>, <<1, 2, 0>>>>>>,
+            <<<<<<2, 3, 3>>, <<0, 2, 3>>>>, <<<<2, 0, 0>>, <<2, 0, 1>>>>, <<<<1, 1, 3>>, <<0, 3, 0>>>>>>,
+            <<<<<<3, 1, 3>>, <<1, 2, 2>>>>, <<<<0, 3, 0>>, <<0, 0, 0>>>>, <<<<1, 2, 1>>, <<3, 0, 2>>>>>>>>   \* m = 3, n = 2
+ShapeWorlds == <<WorldA, WorldB>>
+WorldM(T) == Len(T[1])
+WorldN(T) == Len(T[1][1])
+
+\* boxes of the family: large enough that the true displacements (components within -3..3) are
+\* their own unique minimum images, shorter than half the smallest box height, in SB_O, SB_T, SB_C
+SB_O == Diag(8, 8, 16)
+SB_T == MatScale(4, Tric1)
+SB_C == MatScale(8, Tric1)            \* its lattice is contained in those of SB_O and SB_T
+ShapeBoxesQuick == {SB_O, SB_T}
+ShapeBoxesAll == ShapeBoxesQuick \cup {MatScale(4, Tric2), MatScale(2, RotOrtho), MatScale(2, LeftHand), MatScale(4, TricABAC), Diag(16, 4, 8)}
+\* per-model boxes: an orthorhombic and a triclinic model (and a third one); positions are wrapped
+\* by lattice vectors of the LAST box, which are lattice vectors of every model's box
+PerBoxes(m) == IF m = 2 THEN <<SB_O, SB_C>> ELSE <<SB_T, SB_O, SB_C>>
+ASSUME \A m \in {2, 3} : \A i \in 1..m : \A r \in 1..3 : IsLatticeVec(PerBoxes(m)[m][r], PerBoxes(m)[i])
+ASSUME \A B \in ShapeBoxesAll \cup {SB_C} : Dom_DyadicBox(B)
+
+Kinds == {"nd", "obj"}
+AllForms(ar) == [1..ar -> (1..3) \X Kinds]
+KindPatterns4 == {<<"nd", "nd", "nd", "nd">>, <<"obj", "obj", "obj", "obj">>, <<"nd", "obj", "nd", "obj">>,
+                  <<"obj", "nd", "obj", "nd">>, <<"nd", "nd", "obj", "obj">>, <<"obj", "obj", "nd", "nd">>}
+\* every combination of ranks; for four operands the kinds follow six patterns in the quick tier
+FormsOf(fn, full) ==
+  IF FnArity(fn) < 4 \/ full THEN AllForms(FnArity(fn))
+  ELSE {[j \in 1..4 |-> <<r[j], k[j]>>] : r \in [1..4 -> 1..3], k \in KindPatterns4}
+RanksOf(f) == [j \in DOMAIN f |-> f[j][1]]
+MaxRank(f) == SetMax({f[j][1] : j \in DOMAIN f})
+BoxArgs(R, m, BX) == {<<>>} \cup {<<"one", B>> : B \in BX} \cup (IF R = 3 THEN {<<"per", PerBoxes(m)>>} ELSE {})
+ShapeCases(WIs, BX, full) ==
+  UNION {{<<"shapes", <<fn, f, wi, ba>>>> : f \in FormsOf(fn, full), wi \in WIs, ba \in BoxArgs(3, 3, BX) \cup BoxArgs(3, 2, BX)} : fn \in FnNames}
+BoxArgOK(ba, R, m) == ba = <<>> \/ ba[1] = "one" \/ (ba[1] = "per" /\ R = 3 /\ ba[2] = PerBoxes(m))
+ShapeOK(c) == BoxArgOK(c[2][4], MaxRank(c[2][2]), WorldM(ShapeWorlds[c[2][3]]))
+CentroidCases(WIs) == {<<"shapes", <<"centroid", <<<<r, k>>>>, wi, <<>>>>>> : r \in {2, 3}, k \in Kinds, wi \in WIs}
+
+\* index_*: which operands of the world stand at the argument positions, in which order
+RECURSIVE InjSeqs(_, _)
+InjSeqs(k, S) == IF k = 0 THEN {<<>>} ELSE UNION {{<<x>> \o q : q \in InjSeqs(k - 1, S \ {x})} : x \in S}
+BoxModes == {"none", "param", "own", "over"}
+IndexCases(WIs, BX, full) ==
+  UNION {{<<"index", <<fn, <<r, k>>, wi, bm, ba, perm>>>> :
+             r \in {2, 3}, k \in Kinds, wi \in WIs, bm \in BoxModes, ba \in BoxArgs(3, 3, BX) \cup BoxArgs(3, 2, BX),
+             perm \in InjSeqs(FnArity(fn), IF full THEN 1..4 ELSE 1..FnArity(fn))} : fn \in FnNames}
+IndexOK(c) ==
+  LET r == c[2][2][1]  k == c[2][2][2]  bm == c[2][4]  ba == c[2][5] IN
+  /\ BoxArgOK(ba, r, WorldM(ShapeWorlds[c[2][3]]))
+  /\ (bm = "none") = (ba = <<>>)
+  /\ bm \in {"own", "over"} => k = "obj"
+
 (* The case set of a tier is the union of its families.  The union is never built: TLC would
    evaluate a zero-arity definition of it once per worker, single-threaded, merging the
    families with a linear search per element (measured: 60 s for 15,000 cases).  Init is a
@@ -167,6 +245,8 @@ InTiny(c) ==
   \/ c \in {u \in UnwrapCases(<<MolList[3]>>, {Ortho844}, {<<0, 0, 0>>, <<1, 0, 0>>}) : UnwrapOK(u)}
   \/ c \in CutCases(<<MolList[1], MolList[6]>>, {OrthoL44}, {<<0, 1, 0>>, <<-1, 0, 0>>})
   \/ c \in XformCases({Pts3})
+  \/ c \in {u \in ShapeCases({1}, {SB_T}, FALSE) : ShapeOK(u) /\ u[2][1] \in {"displacement", "angle"}} \/ c \in CentroidCases({1})
+  \/ c \in {u \in IndexCases({2}, {SB_O}, FALSE) : IndexOK(u) /\ u[2][1] \in {"distance", "angle"}}
 InQuick(c) ==
   \/ c \in GeomCases(V26, V2Quick, V26) \/ c \in CollinearCases
   \/ c \in VecBoxCases(3, BoxSet) \/ c \in LineCases
@@ -174,6 +254,8 @@ InQuick(c) ==
   \/ c \in {u \in UnwrapCases(MolList, {Ortho844, Tric3}, {<<0, 0, 0>>, <<1, 0, 0>>, <<0, -1, 1>>}) : UnwrapOK(u)}
   \/ c \in CutCases(MolList, {Ortho844, Tric3} \cup ElongatedQuick, FaceDirs)
   \/ c \in XformCases({Pts3, Pts4, Pts1})
+  \/ c \in {u \in ShapeCases({1, 2}, ShapeBoxesQuick, FALSE) : ShapeOK(u)} \/ c \in CentroidCases({1, 2})
+  \/ c \in {u \in IndexCases({1, 2}, ShapeBoxesQuick, FALSE) : IndexOK(u)}
 InThorough(c) ==
   \/ c \in GeomCases(V26, V26, V26) \/ c \in CollinearCases
   \/ c \in VecBoxCases(5, BoxSet) \/ c \in LineCases
@@ -181,6 +263,8 @@ InThorough(c) ==
   \/ c \in {u \in UnwrapCases(MolList, {Ortho844, Tric3, Diag(8, 8, 8)}, ShiftChoices) : UnwrapOK(u)}
   \/ c \in CutCases(MolList, {Ortho844, Tric3, Diag(8, 8, 8)} \cup ElongatedAll, FaceDirs \cup EdgeDirs)
   \/ c \in XformCases({Pts3, Pts4, Pts1})
+  \/ c \in {u \in ShapeCases({1, 2}, ShapeBoxesAll, TRUE) : ShapeOK(u)} \/ c \in CentroidCases({1, 2})
+  \/ c \in {u \in IndexCases({1, 2}, ShapeBoxesAll, TRUE) : IndexOK(u)}
 
 (* ------------------------------------------------------------------ evaluation *)
 GeomPoints(o, v1, v2, v3) == <<o, VAdd(o, v1), VAdd(VAdd(o, v1), v2), VAdd(VAdd(VAdd(o, v1), v2), v3)>>
@@ -299,6 +383,71 @@ EvalXform(c) ==
                                        /\ MatVec(AlignRot(a[1], a[2]), UnitOf(a[1])) = UnitOf(a[2])>> >>
                              ELSE << <<"Rejected", <<>>, 1>>, <<TRUE>> >>
 
+(* operand shapes: the positions given to the code (wrapped by lattice vectors when there is a
+   box), the operands in the forms of the case, the broadcast result *)
+Eager2(s) == EagerSeq([i \in DOMAIN s |-> EagerSeq(s[i])])
+Eager3(s) == EagerSeq([i \in DOMAIN s |-> Eager2(s[i])])
+ShiftAt(h, j, mi, ai) == ShiftSeq[((3 * j + 2 * mi + 4 * ai + h) % 5) + 1]
+FormHash(f) == SumSeq([j \in DOMAIN f |-> j * f[j][1] + (IF f[j][2] = "obj" THEN 2 ELSE 0)])
+WrapBox(ba) == IF ba[1] = "one" THEN ba[2] ELSE ba[2][Len(ba[2])]
+WorldGiven(T, ba, h) ==
+  IF ba = <<>> THEN T
+  ELSE Eager3([j \in DOMAIN T |-> [mi \in DOMAIN T[j] |-> [ai \in DOMAIN T[j][mi] |->
+                  VAdd(T[j][mi][ai], LatVec(ShiftAt(h, j, mi, ai), WrapBox(ba)))]]])
+\* the operand of rank r at argument position j: the whole stack, the atoms of the first model,
+\* or the first atom of the first model
+OperandOf(C, j, r) == CASE r = 3 -> <<3, C[j]>> [] r = 2 -> <<2, C[j][1]>> [] r = 1 -> <<1, C[j][1][1]>>
+AllEntries(res, P(_, _)) == \A mi \in DOMAIN res : \A ai \in DOMAIN res[mi] : P(mi, ai)
+
+EvalShapes(c) ==
+  LET fn == c[1]  f == c[2]  T == ShapeWorlds[c[3]]  ba == c[4] IN
+  IF fn = "centroid"
+  THEN LET op == OperandOf(T, 1, f[1][1]) IN << <<<<op[2]>>, f[1][1], CentroidOf(op)>>, <<TRUE>> >>
+  ELSE
+  LET ar == FnArity(fn)
+      C == WorldGiven(T, ba, FormHash(f))
+      ops == [j \in 1..ar |-> OperandOf(C, j, f[j][1])]
+      tops == [j \in 1..ar |-> OperandOf(T, j, f[j][1])]
+      res == Eager2(Broadcast(fn, ops, ba))
+      tres == Eager2(Broadcast(fn, tops, ba))
+      rev == Eager2(Broadcast(fn, [j \in 1..ar |-> ops[ar + 1 - j]], ba))
+      r == RanksOf(f)
+  IN << <<[j \in 1..ar |-> ops[j][2]], ResultRank(ops), res>>,
+        << Dom_Operands(ops) /\ Dom_BoxArg(ba, ops)
+             /\ Len(res) = (IF ResultRank(ops) = 3 THEN WorldM(T) ELSE 1)
+             /\ Len(res[1]) = (IF ResultRank(ops) >= 2 THEN WorldN(T) ELSE 1),
+           \* code-shaped (subtraction order chosen by the dimensionality) = textbook
+           AllEntries(res, LAMBDA mi, ai :
+              ImplFnValueP(fn, r, [j \in 1..ar |-> OperandAt(ops[j], mi, ai)], CtxOf(BoxAt(ba, mi))) = res[mi][ai][1]),
+           \* wrapping by lattice vectors changes nothing where the value is specified
+           AllEntries(res, LAMBDA mi, ai :
+              /\ res[mi][ai][2] = tres[mi][ai][2]
+              /\ res[mi][ai][2] => res[mi][ai] = tres[mi][ai]),
+           \* reversed argument order
+           AllEntries(res, LAMBDA mi, ai :
+              res[mi][ai][2] => /\ rev[mi][ai][1] = ReversedValue(fn, res[mi][ai][1])
+                                /\ rev[mi][ai][3] = res[mi][ai][3]) >> >>
+
+EvalIndex(c) ==
+  LET fn == c[1]  r == c[2][1]  T == ShapeWorlds[c[3]]  ba == c[5]  perm == c[6]
+      ar == FnArity(fn)  n == WorldN(T)  m == WorldM(T)
+      C == WorldGiven(T, ba, SumSeq(perm) + r)
+      Flat(W, mi) == [x \in 1..(4 * n) |-> W[((x - 1) \div n) + 1][mi][((x - 1) % n) + 1]]
+      atoms == IF r = 2 THEN <<2, EagerSeq(Flat(C, 1))>> ELSE <<3, Eager2([mi \in 1..m |-> Flat(C, mi)])>>
+      tatoms == IF r = 2 THEN <<2, EagerSeq(Flat(T, 1))>> ELSE <<3, Eager2([mi \in 1..m |-> Flat(T, mi)])>>
+      \* one row per atom of the operands, and a row that mixes the first and the last atom
+      rows == Eager2([x \in 1..(n + 1) |-> [p \in 1..ar |->
+                 (perm[p] - 1) * n + (IF x <= n THEN x ELSE IF p = 1 THEN 1 ELSE n)]])
+      res == Eager2(IndexFn(fn, atoms, rows, ba))
+      tres == Eager2(IndexFn(fn, tatoms, rows, ba))
+      direct == Eager2(Broadcast(fn, [p \in 1..ar |-> OperandOf(C, perm[p], r)], ba))
+  IN << <<atoms[2], rows, res, Diag(32, 32, 32)>>,
+        << \* index-based = coordinate-based on the operands of the world
+           \A mi \in DOMAIN res : \A ai \in 1..n : res[mi][ai] = direct[mi][ai],
+           AllEntries(res, LAMBDA mi, x :
+              /\ res[mi][x][2] = tres[mi][x][2]
+              /\ res[mi][x][2] => res[mi][x] = tres[mi][x]) >> >>
+
 Evaluate(c) ==
   CASE c[1] = "geom"    -> EvalGeom(c[2])
     [] c[1] = "vecbox"  -> EvalVecBox(c[2])
@@ -306,6 +455,8 @@ Evaluate(c) ==
     [] c[1] = "boxcell" -> EvalBoxCell(c[2])
     [] c[1] = "unwrap"  -> EvalUnwrap(c[2])
     [] c[1] = "xform"   -> EvalXform(c[2])
+    [] c[1] = "shapes"  -> EvalShapes(c[2])
+    [] c[1] = "index"   -> EvalIndex(c[2])
 
 (* ------------------------------------------------------------------ the model *)
 \* (state variables named so that they cannot coincide with a bound variable or parameter
@@ -326,4 +477,17 @@ InvUnwrapDomain ==
   (Done /\ vcase[1] = "unwrap") =>
      LET ct == CompactTab[<<<<vcase[2][1], vcase[2][2]>>, vcase[2][4]>>]
      IN \A M \in Molecules(Len(vcase[2][1]), vcase[2][2]) : ct[2][M]
+(* the operand worlds are inside the domain and sensitive: with the family's own boxes every
+   entry is specified; a specified entry is defined; without a box no angle is a right angle
+   (cos # 0: a negated displacement shows) and the entries of a result are pairwise different
+   (a wrongly broadcast operand shows) *)
+InvShapesDomain ==
+  (Done /\ vcase[1] = "shapes" /\ vcase[2][1] # "centroid") =>
+     LET res == vout[1][3]  ba == vcase[2][4]  fn == vcase[2][1]
+         ents == {<<mi, ai>> : mi \in DOMAIN res, ai \in DOMAIN res[1]}
+     IN /\ \A e \in ents :
+              /\ (ba = <<>> \/ ba[1] = "per" \/ ba[2] \in ShapeBoxesQuick) => res[e[1]][e[2]][2]
+              /\ res[e[1]][e[2]][2] => res[e[1]][e[2]][3]
+              /\ (ba = <<>> /\ fn = "angle") => res[e[1]][e[2]][1][1] # 0
+        /\ ba = <<>> => \A e1, e2 \in ents : e1 # e2 => res[e1[1]][e1[2]][1] # res[e2[1]][e2[2]][1]
 =============================================================================
